@@ -93,3 +93,158 @@ def arg_root(leaves):
 def fmt_key(path):
     """Shorten a body path for finding keys (strip crate prefix)."""
     return re.sub(r"^rpm::", "", path)
+
+
+# ---------------------------------------------------------------------------------------
+# CFG helpers for Result-returning functions
+# ---------------------------------------------------------------------------------------
+from collections import deque
+
+
+def ok_assign_blocks(body):
+    """Blocks that store Ok(..) into the return place."""
+    out = []
+    for (bb, idx, kind, payload, lhs_proj) in body.defs(0):
+        if kind == "assign" and not lhs_proj:
+            rv = payload["rv"]
+            if rv["r"] == "agg" and rv.get("ak") == "adt" and rv["adt"].endswith("result::Result") and rv["variant"] == "Ok":
+                out.append(bb)
+    return out
+
+
+def err_assign_blocks(body):
+    """[(bb, 'ErrorVariant' | None)] for blocks that store Err(..) into the return place."""
+    out = []
+    for (bb, idx, kind, payload, lhs_proj) in body.defs(0):
+        if kind == "assign" and not lhs_proj:
+            rv = payload["rv"]
+            if rv["r"] == "agg" and rv.get("ak") == "adt" and rv["adt"].endswith("result::Result") and rv["variant"] == "Err":
+                var = None
+                for lf in body.origins(rv["ops"][0]):
+                    if lf["kind"] == "agg":
+                        var = lf["stmt"]["rv"].get("variant")
+                out.append((bb, var))
+    return out
+
+
+def residual_return_blocks(body):
+    """[(bb, Call)] for `?` error exits: _0 = FromResidual::from_residual(..)."""
+    out = []
+    for (bb, idx, kind, payload, lhs_proj) in body.defs(0):
+        if kind == "call":
+            c = body.call_at(bb)
+            if c.decl == "std::ops::FromResidual::from_residual":
+                out.append((bb, c))
+    return out
+
+
+def question_mark_source(body, residual_call):
+    """The call whose Result a `?` exit propagates (the operand of the matching Try::branch)."""
+    for lf in body.origins(residual_call.args[0], passthrough={}):
+        if lf["kind"] == "call" and lf["call"].decl == "std::ops::Try::branch":
+            br = lf["call"]
+            srcs = [l2["call"] for l2 in body.origins(br.args[0], passthrough={}) if l2["kind"] == "call"]
+            return srcs
+    return []
+
+
+def reach_from(body, start, blocked_edges=(), blocked_blocks=()):
+    """Blocks reachable from `start` (inclusive) along normal edges not in blocked_edges."""
+    blocked_edges = set(blocked_edges)
+    blocked_blocks = set(blocked_blocks)
+    seen = set()
+    dq = deque([start])
+    while dq:
+        b = dq.popleft()
+        if b in seen or b in blocked_blocks:
+            continue
+        seen.add(b)
+        for s in body.succ(b):
+            if (b, s) not in blocked_edges:
+                dq.append(s)
+    return seen
+
+
+def switch_info(body, bb):
+    """Describe what a SwitchInt block branches on.
+
+    -> {'kind': 'discr', 'place': place dict, 'targets': {...}, 'otherwise': bb}
+       {'kind': 'bool', 'call': Call, 'neg': bool, 'true': bb, 'false': bb}
+       {'kind': 'cmp', 'stmt': stmt, 'neg': bool, 'true': bb, 'false': bb}
+       {'kind': 'other'}"""
+    t = body.term(bb)
+    if t["t"] != "switch":
+        return None
+    pl = op_place(t["d"])
+    targets = {int(v): b for v, b in t["targets"]}
+    if pl is None or pl["p"]:
+        return {"kind": "other", "targets": targets, "otherwise": t["otherwise"]}
+    neg = False
+    l = pl["l"]
+    for _ in range(8):
+        ds = body.defs(l)
+        if len(ds) != 1:
+            return {"kind": "other", "targets": targets, "otherwise": t["otherwise"]}
+        (dbb, idx, kind, payload, lhs_proj) = ds[0]
+        if kind == "call":
+            c = body.call_at(dbb)
+            tb = targets.get(1, t["otherwise"])
+            fb = targets.get(0, t["otherwise"])
+            if neg:
+                tb, fb = fb, tb
+            return {"kind": "bool", "call": c, "neg": neg, "true": tb, "false": fb}
+        rv = payload["rv"]
+        if rv["r"] == "discr":
+            return {"kind": "discr", "place": rv["p"], "targets": targets, "otherwise": t["otherwise"], "bb": dbb}
+        if rv["r"] == "un" and rv["op"] == "Not":
+            neg = not neg
+            p2 = op_place(rv["a"])
+            if p2 is None or p2["p"]:
+                break
+            l = p2["l"]
+            continue
+        if rv["r"] == "use":
+            p2 = op_place(rv["o"])
+            if p2 is None or p2["p"]:
+                break
+            l = p2["l"]
+            continue
+        if rv["r"] == "bin":
+            tb = targets.get(1, t["otherwise"])
+            fb = targets.get(0, t["otherwise"])
+            if neg:
+                tb, fb = fb, tb
+            return {"kind": "cmp", "stmt": payload, "neg": neg, "true": tb, "false": fb}
+        break
+    return {"kind": "other", "targets": targets, "otherwise": t["otherwise"]}
+
+
+def users_switches(body, local):
+    """Switch blocks whose discriminee is (a copy / negation of) `local`."""
+    out = []
+    for b in body.reachable():
+        if body.term(b)["t"] != "switch":
+            continue
+        pl = op_place(body.term(b)["d"])
+        if pl is None or pl["p"]:
+            continue
+        l = pl["l"]
+        seen = set()
+        while l not in seen:
+            seen.add(l)
+            if l == local:
+                out.append(b)
+                break
+            ds = body.defs(l)
+            if len(ds) != 1 or ds[0][2] != "assign":
+                break
+            rv = ds[0][3]["rv"]
+            src = None
+            if rv["r"] == "use":
+                src = op_place(rv["o"])
+            elif rv["r"] == "un" and rv["op"] == "Not":
+                src = op_place(rv["a"])
+            if src is None or src["p"]:
+                break
+            l = src["l"]
+    return out
